@@ -579,7 +579,7 @@ class Path:
         for wname, (wsort, bound_to) in getattr(fc, "witness_vals", {}).items():
             if bound_to in self.env.locals:
                 self.env.locals[wname] = self.env.locals[bound_to]
-        sv = self.env.spec_view(old=self.entry, result=result)
+        sv = self.env.spec_view(old=self.entry, result=result, extra=getattr(self, "param_visible", None))
         for e in fc.uses_exit:
             self.assume_use(e, sv)
         for e, l in fc.hints_l:
@@ -610,7 +610,7 @@ class Path:
         whens = [self.ev_spec(w, self.entry).t for _, w, _, _ in clauses if w is not None]
         if whens and len(whens) == len(clauses):
             self.oblige("%s/raises[%s]:only-when@L%d" % (q, e.name, e.line), z3.Or(*whens), "raises", e.line)
-        sv = self.env.spec_view(old=self.entry, result=None)
+        sv = self.env.spec_view(old=self.entry, result=None, extra=getattr(self, "param_visible", None))
         for exc, when, ens, iff in clauses:
             for x in ens:
                 self.oblige("%s/raises[%s]:ensures(%s)" % (q, e.name, x), self.ev_spec(x, sv).t, "raises", e.line)
@@ -723,7 +723,7 @@ class Path:
         if isinstance(s, ast.Assign):
             v = self.ev(s.value, env)
             for t in s.targets:
-                self.assign(t, v)
+                self.assign(t, v, rebind=isinstance(t, ast.Name))
             return
         if isinstance(s, ast.AnnAssign):
             if s.value is not None:
@@ -888,8 +888,14 @@ class Path:
         raise Unsupported("del of %s" % ast.dump(t)[:60])
 
     # ------------------------------------------------------------------ assignment
-    def assign(self, tgt, v):
+    def assign(self, tgt, v, rebind=False):
         env = self.env
+        if isinstance(tgt, ast.Name) and rebind and tgt.id in self.fc.params and tgt.id in env.locals:
+            # `p = ...` rebinds the parameter name: the caller keeps seeing the object it passed (with the in-place changes made so far);
+            # postconditions speak about THAT value under the parameter's name, not about the new local binding
+            if not hasattr(self, "param_visible"):
+                self.param_visible = {}
+            self.param_visible.setdefault(tgt.id, env.locals[tgt.id])
         if isinstance(tgt, ast.Name):
             declared = self.fc.locals_sorts.get(tgt.id)
             if declared is not None:
